@@ -1,4 +1,5 @@
 import ScionVerif.Model.SnapFilter
+import ScionVerif.Model.ScmpHandler
 import ScionVerif.Spec.SnapFilter
 /-! Helper lemmas for the SNAP ingress filter (C08) and SCMP (C14) models. Property theorems live in
 `Theorems/C08.lean` and `Theorems/C14.lean`. -/
@@ -476,3 +477,337 @@ theorem encodeReply_char (code ptr : Nat) (off : Bytes) (loc peer : Ip) (h1 : lo
     exact hq
 
 end ScionVerif.SnapFilter
+
+/-! ## SCMP handling (C14) -/
+namespace ScionVerif.Scmp
+open ScionVerif.Generated.Scmp
+
+theorem kind_fixed_eq (k : ErrKind) : 4 + k.rest.length = k.fixed := by
+  cases k <;> rfl
+
+theorem table_budget : ∀ e ∈ ERROR_KINDS, MAX_HEADER_SIZE + e.2 ≤ SCMP_ERROR_MAX_PACKET_SIZE := by decide
+
+theorem kind_fixed_le (k : ErrKind) : MAX_HEADER_SIZE + k.fixed ≤ SCMP_ERROR_MAX_PACKET_SIZE := by
+  cases k
+  · exact (by decide : MAX_HEADER_SIZE + 8 ≤ SCMP_ERROR_MAX_PACKET_SIZE)
+  · exact (by decide : MAX_HEADER_SIZE + 8 ≤ SCMP_ERROR_MAX_PACKET_SIZE)
+  · exact (by decide : MAX_HEADER_SIZE + 8 ≤ SCMP_ERROR_MAX_PACKET_SIZE)
+  · exact (by decide : MAX_HEADER_SIZE + 20 ≤ SCMP_ERROR_MAX_PACKET_SIZE)
+  · exact (by decide : MAX_HEADER_SIZE + 28 ≤ SCMP_ERROR_MAX_PACKET_SIZE)
+
+theorem parseMsg_ty (m : Bytes) (x : Msg) (h : parseMsg m = some x) : x.ty = byteAt m 0 := by
+  unfold parseMsg at h
+  simp only [] at h
+  split at h
+  · cases h
+  · split at h
+    · cases h
+    · repeat' split at h
+      all_goals (cases h; simp_all [Msg.ty, ErrKind.ty])
+
+
+/-! ### socket loop -/
+
+theorem recvOne_delivered (rev : Rev) (n : Nat) (hs : List Handler) (p : Pkt) :
+    (recvOne rev n hs p).delivered = if p.nextHdr = PROTO_UDP then deliverUdp p else none := by
+  unfold recvOne
+  by_cases h : p.nextHdr = PROTO_UDP
+  · simp [h]
+  · have : PROTO_SCMP ≠ PROTO_UDP := by decide
+    by_cases h2 : p.nextHdr = PROTO_SCMP <;> simp [h, h2, this]
+
+theorem recvOne_sent_nonscmp (rev : Rev) (n : Nat) (hs : List Handler) (p : Pkt) (h : p.nextHdr ≠ PROTO_SCMP) :
+    (recvOne rev n hs p).sent = [] ∧ (recvOne rev n hs p).reports = [] := by
+  unfold recvOne
+  by_cases h1 : p.nextHdr = PROTO_UDP <;> simp [h, h1]
+
+theorem echoHandle_some (rev : Rev) (p : Pkt) (r : RawPkt) (h : echoHandle rev p = some r) :
+    ∃ i s d, asScmp p = some (.echoRequest i s d) ∧ (VERIFY_CHECKSUM_ON_RECEIVE = true → scmpChecksumOk p = true) := by
+  unfold echoHandle at h
+  split at h
+  · rename_i i s d hm
+    refine ⟨i, s, d, hm, ?_⟩
+    intro hv
+    by_cases hc : scmpChecksumOk p = true
+    · exact hc
+    · simp [hc, hv] at h
+  · cases h
+
+/-- a handler sends something only for an echo request whose checksum verifies (if verification is on) -/
+theorem runHandler_sent (rev : Rev) (n : Nat) (h : Handler) (p : Pkt) (hs : (runHandler rev n h p).sent ≠ []) :
+    ∃ i s d, asScmp p = some (.echoRequest i s d) ∧ (VERIFY_CHECKSUM_ON_RECEIVE = true → scmpChecksumOk p = true) := by
+  cases h with
+  | error => unfold runHandler at hs; simp only [] at hs; split at hs <;> simp at hs
+  | echo =>
+    cases he : echoHandle rev p with
+    | none => simp [runHandler, he] at hs
+    | some r => exact echoHandle_some rev p r he
+
+theorem exists_of_flatMap_ne_nil {α β : Type} (l : List α) (f : α → List β) (h : l.flatMap f ≠ []) :
+    ∃ x ∈ l, f x ≠ [] := by
+  induction l with
+  | nil => simp at h
+  | cons a t ih =>
+    by_cases ha : f a = []
+    · simp only [List.flatMap_cons, ha, List.nil_append] at h
+      obtain ⟨x, hx, hfx⟩ := ih h
+      exact ⟨x, List.mem_cons_of_mem _ hx, hfx⟩
+    · exact ⟨a, List.mem_cons_self, ha⟩
+
+theorem recvOne_sent (rev : Rev) (n : Nat) (hs : List Handler) (p : Pkt) (h : (recvOne rev n hs p).sent ≠ []) :
+    p.nextHdr = PROTO_SCMP ∧
+    ∃ i s d, asScmp p = some (.echoRequest i s d) ∧ (VERIFY_CHECKSUM_ON_RECEIVE = true → scmpChecksumOk p = true) := by
+  by_cases hn : p.nextHdr = PROTO_SCMP
+  · refine ⟨hn, ?_⟩
+    unfold recvOne at h
+    have hne : PROTO_SCMP ≠ PROTO_UDP := by decide
+    simp only [hn, hne, if_true, if_false] at h
+    obtain ⟨e, he, hx⟩ := exists_of_flatMap_ne_nil _ _ h
+    rw [List.mem_map] at he
+    obtain ⟨x, _, rfl⟩ := he
+    exact runHandler_sent rev n x p hx
+  · exact absurd (recvOne_sent_nonscmp rev n hs p hn).1 h
+
+theorem u8_toNat (n : Nat) : (u8 n).toNat = n % 256 := by
+  simp [u8]
+
+theorem split16 (n : Nat) (h : n < 65536) : n / 256 % 256 * 256 + n % 256 = n := by
+  have : n / 256 < 256 := by omega
+  rw [Nat.mod_eq_of_lt this]
+  omega
+
+/-- an echo message (request `ty = 128` or reply `ty = 129`) as laid out on the wire -/
+def echoWire (ty : Nat) (code c1 c2 : UInt8) (ident seq : Nat) (data : Bytes) : Bytes :=
+  [u8 ty, code, c1, c2] ++ be16 ident ++ be16 seq ++ data
+
+theorem echoWire_eq (ty : Nat) (code c1 c2 : UInt8) (ident seq : Nat) (data : Bytes) :
+    echoWire ty code c1 c2 ident seq data =
+      u8 ty :: code :: c1 :: c2 :: u8 (ident / 256) :: u8 ident :: u8 (seq / 256) :: u8 seq :: data := by
+  simp [echoWire, be16]
+
+theorem parse_echo (ty : Nat) (code c1 c2 : UInt8) (ident seq : Nat) (data : Bytes) (hi : ident < 65536) (hs : seq < 65536)
+    (hty : ty = TYPE_EchoRequest ∨ ty = TYPE_EchoReply) :
+    parseMsg (echoWire ty code c1 c2 ident seq data) =
+      some (if ty = TYPE_EchoRequest then .echoRequest ident seq data else .echoReply ident seq data) := by
+  rw [echoWire_eq]
+  have hid : be (u8 ty :: code :: c1 :: c2 :: u8 (ident / 256) :: u8 ident :: u8 (seq / 256) :: u8 seq :: data) 4 2 = ident := by
+    simp [be, beRead, byteAt, u8_toNat]; exact split16 ident hi
+  have hsq : be (u8 ty :: code :: c1 :: c2 :: u8 (ident / 256) :: u8 ident :: u8 (seq / 256) :: u8 seq :: data) 6 2 = seq := by
+    simp [be, beRead, byteAt, u8_toNat]; exact split16 seq hs
+  have m1 : minLen 128 = 8 := by decide
+  have m2 : minLen 129 = 8 := by decide
+  unfold parseMsg
+  simp only [hid, hsq]
+  rcases hty with h | h
+  · subst h
+    have h0 : byteAt (u8 TYPE_EchoRequest :: code :: c1 :: c2 :: u8 (ident / 256) :: u8 ident :: u8 (seq / 256) :: u8 seq :: data) 0 = 128 := by
+      simp [byteAt, u8_toNat, TYPE_EchoRequest]
+    rw [h0, m1]
+    simp [UNKNOWN_HEADER_SIZE, TYPE_EchoRequest, TYPE_DestinationUnreachable, TYPE_PacketTooBig, TYPE_ParameterProblem,
+      TYPE_ExternalInterfaceDown, TYPE_InternalConnectivityDown, HDR_EchoRequest]
+  · subst h
+    have h0 : byteAt (u8 TYPE_EchoReply :: code :: c1 :: c2 :: u8 (ident / 256) :: u8 ident :: u8 (seq / 256) :: u8 seq :: data) 0 = 129 := by
+      simp [byteAt, u8_toNat, TYPE_EchoReply]
+    rw [h0, m2]
+    simp [UNKNOWN_HEADER_SIZE, TYPE_EchoRequest, TYPE_EchoReply, TYPE_DestinationUnreachable, TYPE_PacketTooBig, TYPE_ParameterProblem,
+      TYPE_ExternalInterfaceDown, TYPE_InternalConnectivityDown, HDR_EchoReply]
+
+theorem echoMsg_eq_wire (ty ident seq : Nat) (data : Bytes) (a : AddrHdr) :
+    ∃ c1 c2, echoMsg ty ident seq data a = echoWire ty 0 c1 c2 ident seq data := by
+  refine ⟨u8 (checksum a PROTO_SCMP ([u8 ty, 0, 0, 0] ++ be16 ident ++ be16 seq ++ data) / 256),
+    u8 (checksum a PROTO_SCMP ([u8 ty, 0, 0, 0] ++ be16 ident ++ be16 seq ++ data)), ?_⟩
+  simp [echoMsg, echoWire, be16]
+
+
+/-! ### echo handler -/
+
+theorem asScmp_echoRequest (p : Pkt) (code c1 c2 : UInt8) (ident seq : Nat) (data : Bytes)
+    (hnh : p.nextHdr = PROTO_SCMP) (hpl : p.payload = echoWire TYPE_EchoRequest code c1 c2 ident seq data)
+    (hi : ident < 65536) (hs : seq < 65536) : asScmp p = some (.echoRequest ident seq data) := by
+  unfold asScmp
+  rw [if_neg (by simp [hnh]), hpl, parse_echo _ _ _ _ _ _ _ hi hs (Or.inl rfl)]
+  simp
+
+/-- the echo handler on a well-formed echo request -/
+theorem echoHandle_request (rev : Rev) (p : Pkt) (code c1 c2 : UInt8) (ident seq : Nat) (data : Bytes) (pt : Nat) (path : Bytes)
+    (hnh : p.nextHdr = PROTO_SCMP) (hpl : p.payload = echoWire TYPE_EchoRequest code c1 c2 ident seq data)
+    (hi : ident < 65536) (hs : seq < 65536)
+    (hck : VERIFY_CHECKSUM_ON_RECEIVE = true → scmpChecksumOk p = true)
+    (hrev : rev p.pathType p.path = some (pt, path))
+    (hsrc : knownHost p.addr.srcNib = true) (hdst : knownHost p.addr.dstNib = true) :
+    echoHandle rev p = some { nextHdr := PROTO_SCMP, addr := p.addr.swap, pathType := pt, path := path,
+                              payload := echoMsg TYPE_EchoReply ident seq data p.addr.swap } := by
+  unfold echoHandle
+  rw [asScmp_echoRequest p code c1 c2 ident seq data hnh hpl hi hs]
+  simp only []
+  have hc : (!scmpChecksumOk p && VERIFY_CHECKSUM_ON_RECEIVE) = false := by
+    cases hv : VERIFY_CHECKSUM_ON_RECEIVE
+    · simp
+    · simp [hck hv]
+  simp [hc, hrev, hsrc, hdst]
+
+
+/-! ### checksum -/
+
+theorem fold16_spec (x : Nat) (h : x < 4294967296) :
+    fold16 x ≤ 65535 ∧ fold16 x % 65535 = x % 65535 ∧ (fold16 x = 0 ↔ x = 0) := by
+  unfold fold16
+  simp only []
+  omega
+
+theorem sumWords_append_even : ∀ (l1 l2 : Bytes), l1.length % 2 = 0 → sumWords (l1 ++ l2) = sumWords l1 + sumWords l2
+  | [], l2, _ => by simp [sumWords]
+  | [a], l2, h => by simp at h
+  | a :: b :: t, l2, h => by
+      have := sumWords_append_even t l2 (by simp at h; omega)
+      simp [sumWords, this]; omega
+
+theorem sumWords_le : ∀ (l : Bytes), sumWords l ≤ 65535 * ((l.length + 1) / 2)
+  | [] => by simp [sumWords]
+  | [a] => by have := a.toNat_lt; simp [sumWords]; omega
+  | a :: b :: t => by
+      have := sumWords_le t
+      have := a.toNat_lt
+      have := b.toNat_lt
+      simp [sumWords]; omega
+
+theorem sumWords_be32 (n : Nat) : sumWords (be32 n) = sum32 n := by
+  simp [be32, sumWords, u8_toNat, sum32]; omega
+
+theorem sumWords_be64 (n : Nat) : sumWords (be64 n) = sum64 n := by
+  simp [be64, be32, sumWords, u8_toNat, sum64]; omega
+
+
+theorem be_lengths (n : Nat) : (be32 n).length % 2 = 0 ∧ (be64 n).length % 2 = 0 := ⟨by simp [be32], by simp [be64, be32]⟩
+
+/-- the byte-level pseudo-header sums to the digest's running value, up to end-around carries -/
+theorem pseudo_sum (a : AddrHdr) (len proto : Nat)
+    (hd : a.dstHost.length % 2 = 0) (hs : a.srcHost.length % 2 = 0) :
+    sumWords (pseudoHeaderBytes a len proto) =
+      sum64 a.dstIa + sum64 a.srcIa + sumWords a.dstHost + sumWords a.srcHost + sum32 len + sum32 proto := by
+  unfold pseudoHeaderBytes
+  simp only [List.append_assoc]
+  rw [sumWords_append_even _ _ (be_lengths _).2, sumWords_append_even _ _ (be_lengths _).2, sumWords_append_even _ _ hd,
+    sumWords_append_even _ _ hs, sumWords_append_even _ _ (be_lengths _).1, sumWords_be64, sumWords_be64, sumWords_be32, sumWords_be32]
+  omega
+
+theorem sum_bounds (v : Nat) : sum64 v ≤ 262140 ∧ sum32 v ≤ 131070 ∧ sum32 (v % 4294967296) = sum32 v := by
+  unfold sum64 sum32; omega
+
+theorem arithA (S T fT fV : Nat) (h1 : fT ≤ 65535) (h2 : fT % 65535 = T % 65535)
+    (h4 : S % 65535 = T % 65535) (h5 : 0 < S)
+    (g1 : fV ≤ 65535) (g2 : fV % 65535 = (S + (65535 - fT)) % 65535) (g3 : fV = 0 ↔ S + (65535 - fT) = 0) : fV = 65535 := by
+  omega
+
+theorem arithB (A dh sh m fd fs fm : Nat) (h1 : fd % 65535 = dh % 65535) (h2 : fs % 65535 = sh % 65535) (h3 : fm % 65535 = m % 65535) :
+    (A + dh + sh + m) % 65535 = (A + fd + fs + fm) % 65535 := by
+  omega
+
+theorem host_sum_lt (l : Bytes) (h : l.length ≤ 16) : sumWords l < 4294967296 := by
+  have := sumWords_le l; omega
+
+theorem msg_sum_lt (l : Bytes) (h : l.length ≤ 65535) : sumWords l ≤ 2147450880 := by
+  have := sumWords_le l; omega
+
+theorem arithCore (A dh sh m fd fs fm fT fV : Nat)
+    (hfd : fd % 65535 = dh % 65535) (hfs : fs % 65535 = sh % 65535) (hfm : fm % 65535 = m % 65535) (hA : 0 < A)
+    (hT1 : fT ≤ 65535) (hT2 : fT % 65535 = (A + fd + fs + fm) % 65535)
+    (hV1 : fV ≤ 65535) (hV2 : fV % 65535 = (A + dh + sh + m + (65535 - fT)) % 65535)
+    (hV3 : fV = 0 ↔ A + dh + sh + m + (65535 - fT) = 0) : fV = 65535 :=
+  arithA (A + dh + sh + m) (A + fd + fs + fm) fT fV hT1 hT2 (arithB A dh sh m fd fs fm hfd hfs hfm) (by omega) hV1 hV2 hV3
+
+theorem boundT (A fd fs fm : Nat) (h1 : A ≤ 786421) (h2 : fd ≤ 65535) (h3 : fs ≤ 65535) (h4 : fm ≤ 65535) :
+    A + fd + fs + fm < 4294967296 := by omega
+theorem boundV (A dh sh m fT : Nat) (h1 : A ≤ 786421) (h2 : dh ≤ 524280) (h3 : sh ≤ 524280) (h4 : m ≤ 2147450880) :
+    A + dh + sh + m + (65535 - fT) < 4294967296 := by omega
+theorem boundA (x y z p : Nat) (h1 : x ≤ 262140) (h2 : y ≤ 262140) (h3 : z ≤ 131070) (h4 : 0 < p ∧ p < 65536) :
+    x + y + z + p ≤ 786421 ∧ 0 < x + y + z + p := by omega
+theorem host_le (l : Bytes) (h : l.length ≤ 16) : sumWords l ≤ 524280 := by
+  have := sumWords_le l; omega
+
+theorem sumWords_cons2 (x y : UInt8) (l : Bytes) : sumWords (x :: y :: l) = x.toNat * 256 + y.toNat + sumWords l := by
+  simp [sumWords]
+
+theorem final_assoc (X m k : Nat) : X + (m + k) = X + m + k := (Nat.add_assoc _ _ _).symm
+
+set_option maxRecDepth 4096 in
+/-- **a checksum written by the encoders verifies**: for a message `m0 = type, code, 0, 0, rest…` and the same message
+    with the checksum field holding `checksum a proto m0`, the receiver's one's-complement sum over
+    pseudo-header ++ message is `0xffff` -/
+theorem checksum_verifies_core (a : AddrHdr) (t c : UInt8) (rest m0 : Bytes) (proto : Nat)
+    (hm0 : m0 = t :: c :: 0 :: 0 :: rest)
+    (hcov : CHECKSUM_COVERS_MESSAGE = true)
+    (hd : a.dstHost.length % 2 = 0) (hs : a.srcHost.length % 2 = 0)
+    (hdl : a.dstHost.length ≤ 16) (hsl : a.srcHost.length ≤ 16)
+    (hlen : rest.length + 4 ≤ 65535) (hp : 0 < proto ∧ proto < 65536) :
+    checksumVerifies a proto (t :: c :: u8 (checksum a proto m0 / 256) :: u8 (checksum a proto m0) :: rest) = true := by
+  have hL : m0.length = rest.length + 4 := by rw [hm0]; simp
+  have hsp : sum32 proto = proto := by unfold sum32; omega
+  have hA := boundA _ _ _ _ (sum_bounds a.dstIa).1 (sum_bounds a.srcIa).1 (sum_bounds (rest.length + 4)).2.1 hp
+  have hS : sumWords (pseudoHeaderBytes a (rest.length + 4) proto) =
+      (sum64 a.dstIa + sum64 a.srcIa + sum32 (rest.length + 4) + proto) + sumWords a.dstHost + sumWords a.srcHost := by
+    rw [pseudo_sum a (rest.length + 4) proto hd hs, hsp]; omega
+  have hP : pseudoSum a (rest.length + 4) proto =
+      (sum64 a.dstIa + sum64 a.srcIa + sum32 (rest.length + 4) + proto) + fold16 (sumWords a.dstHost) + fold16 (sumWords a.srcHost) := by
+    unfold pseudoSum; rw [(sum_bounds (rest.length + 4)).2.2, hsp]; omega
+  have hM0le : sumWords m0 ≤ 2147450880 := msg_sum_lt _ (by rw [hL]; exact hlen)
+  have hM0 : sumWords m0 = t.toNat * 256 + c.toNat + sumWords rest := by
+    rw [hm0, sumWords_cons2, sumWords_cons2]
+    have e : ((0 : UInt8).toNat) = 0 := rfl
+    rw [e]; omega
+  have fd := fold16_spec (sumWords a.dstHost) (host_sum_lt _ hdl)
+  have fs := fold16_spec (sumWords a.srcHost) (host_sum_lt _ hsl)
+  have fm := fold16_spec (sumWords m0) (Nat.lt_of_le_of_lt hM0le (by decide))
+  have hck : checksum a proto m0 = 65535 - fold16 (pseudoSum a (rest.length + 4) proto + fold16 (sumWords m0)) := by
+    unfold checksum; rw [hcov, hL]; simp
+  have fT := fold16_spec (pseudoSum a (rest.length + 4) proto + fold16 (sumWords m0))
+    (by rw [hP]; exact boundT _ _ _ _ hA.1 fd.1 fs.1 fm.1)
+  have hck_lt : checksum a proto m0 < 65536 := by rw [hck]; exact Nat.lt_of_le_of_lt (Nat.sub_le _ _) (by decide)
+  have hmsg : sumWords (t :: c :: u8 (checksum a proto m0 / 256) :: u8 (checksum a proto m0) :: rest)
+      = sumWords m0 + checksum a proto m0 := by
+    have h16 := split16 _ hck_lt
+    rw [sumWords_cons2, sumWords_cons2, hM0, u8_toNat, u8_toNat]
+    generalize checksum a proto m0 = ck at h16 ⊢
+    omega
+  have hbV : (sum64 a.dstIa + sum64 a.srcIa + sum32 (rest.length + 4) + proto) + sumWords a.dstHost + sumWords a.srcHost + sumWords m0 +
+      (65535 - fold16 (pseudoSum a (rest.length + 4) proto + fold16 (sumWords m0))) < 4294967296 :=
+    boundV (sum64 a.dstIa + sum64 a.srcIa + sum32 (rest.length + 4) + proto) (sumWords a.dstHost) (sumWords a.srcHost) (sumWords m0)
+      (fold16 (pseudoSum a (rest.length + 4) proto + fold16 (sumWords m0))) hA.1 (host_le _ hdl) (host_le _ hsl) hM0le
+  have fV := fold16_spec _ hbV
+  have hT2 : fold16 (pseudoSum a (rest.length + 4) proto + fold16 (sumWords m0)) % 65535 =
+      ((sum64 a.dstIa + sum64 a.srcIa + sum32 (rest.length + 4) + proto) + fold16 (sumWords a.dstHost) + fold16 (sumWords a.srcHost) +
+        fold16 (sumWords m0)) % 65535 := by
+    have h := fT.2.1
+    rw [hP] at h ⊢
+    exact h
+  have key := arithCore (sum64 a.dstIa + sum64 a.srcIa + sum32 (rest.length + 4) + proto) (sumWords a.dstHost) (sumWords a.srcHost)
+    (sumWords m0) (fold16 (sumWords a.dstHost)) (fold16 (sumWords a.srcHost)) (fold16 (sumWords m0))
+    (fold16 (pseudoSum a (rest.length + 4) proto + fold16 (sumWords m0))) _ fd.2.1 fs.2.1 fm.2.1 hA.2 fT.1 hT2 fV.1 fV.2.1 fV.2.2
+  unfold checksumVerifies
+  have hlen2 : (t :: c :: u8 (checksum a proto m0 / 256) :: u8 (checksum a proto m0) :: rest).length = rest.length + 4 := by simp
+  rw [hlen2, hmsg, hS, hck, final_assoc]
+  simp only [beq_iff_eq]
+  exact key
+
+
+theorem errorMsg_shape (ty code : Nat) (rest off : Bytes) (a : AddrHdr) (hdr : Nat) :
+    errorMsg ty code rest off a hdr =
+      u8 ty :: u8 code ::
+        u8 (checksum a PROTO_SCMP (u8 ty :: u8 code :: 0 :: 0 :: (rest ++ off.take (quoteLen off.length hdr (4 + rest.length)))) / 256) ::
+        u8 (checksum a PROTO_SCMP (u8 ty :: u8 code :: 0 :: 0 :: (rest ++ off.take (quoteLen off.length hdr (4 + rest.length))))) ::
+        (rest ++ off.take (quoteLen off.length hdr (4 + rest.length))) := by
+  simp [errorMsg, be16]
+
+theorem echoMsg_shape (ty ident seq : Nat) (data : Bytes) (a : AddrHdr) :
+    echoMsg ty ident seq data a =
+      u8 ty :: 0 ::
+        u8 (checksum a PROTO_SCMP (u8 ty :: 0 :: 0 :: 0 :: (be16 ident ++ be16 seq ++ data)) / 256) ::
+        u8 (checksum a PROTO_SCMP (u8 ty :: 0 :: 0 :: 0 :: (be16 ident ++ be16 seq ++ data))) ::
+        (be16 ident ++ be16 seq ++ data) := by
+  simp [echoMsg, be16]
+
+/-- well-formedness of an address header as far as the checksum needs it: host addresses of 4..16 bytes, even length -/
+def AddrHdr.hostsOk (a : AddrHdr) : Prop :=
+  a.dstHost.length % 2 = 0 ∧ a.srcHost.length % 2 = 0 ∧ a.dstHost.length ≤ 16 ∧ a.srcHost.length ≤ 16
+
+end ScionVerif.Scmp
